@@ -118,11 +118,11 @@ def _items(rng, tier_scale):
 
 
 def generate(tier, rng):
-    n = 160 if tier == "quick" else 4000
+    n = 6000 if tier == "quick" else 54000
     for i in range(n):
         yield {"jobs": _corpus(rng, i), "items": _items(rng, 1)}
     # every malformed token list, every grouping key x default on fixed corpora
-    for i in range(2 if tier == "quick" else 12):
+    for i in range(6 if tier == "quick" else 40):
         yield {"jobs": _corpus(rng, i), "items": [{"kind": "cli", "tokens": t} for t in CLI_MALFORMED]}
         yield {"jobs": _corpus(rng, 2), "items": [{"kind": "group", "filter": {}, "key": k, "default": d}
                                                   for k in GROUP_KEYS for d in (None, -7)]}
@@ -160,24 +160,6 @@ def shrink(case):
 
 
 # ----------------------------------------------------------------------------------------------
-_F7 = {}
-
-
-def f7_fixed(ctx):
-    """does the running code group by dotted keys? (decides whether such groupings are diffed with
-    the model, which mirrors the planned fix of F-7)"""
-    if "v" not in _F7:
-        d, project, listing = qc.build_project(ctx, [[{"n": {"x": 1}, "x": 2}, None]], "f7probe")
-        try:
-            got = [(k, [j.id for j in g]) for k, g in project.groupby("n.x")]
-            _F7["v"] = len(got) == 1 and got[0][0] == 1
-        except Exception:  # noqa
-            _F7["v"] = False
-        finally:
-            ctx.cleanup(d)
-    return _F7["v"]
-
-
 def _stripped(key):
     head, dot, rest = key.partition(".")
     return (rest if dot and head in ("sp", "doc") else key), (dot and head == "doc")
@@ -302,8 +284,6 @@ def run_case(case, ctx):
     data = {i: (sp, doc) for i, sp, doc in listing}
     model, impl, oracle, tags, dbg = [], [], [], ["jobs=%d" % len(listing)], []
     fail_classes = []
-    fixed6b = qc.f6b_fixed()
-    fixed7 = f7_fixed(ctx)
 
     def emit(line, answer, what):
         model.append(line)
@@ -313,7 +293,7 @@ def run_case(case, ctx):
     def find_item(flt, fails):
         """real find + model line + reference verdict; returns (ids | None, line)"""
         line, ids = qc.impl_find(project, flt, order)
-        if isinstance(flt, dict) and (fixed6b or not qc.not_doc_class(flt)):
+        if isinstance(flt, dict):
             emit("find " + qc.payload(listing, flt), line, flt)
         acc, reason = qc.oracle_set(listing, flt) if isinstance(flt, dict) else (None, "malformed")
         if acc is not None:
@@ -440,6 +420,23 @@ def run_case(case, ctx):
                             fails.append("(job %s in cursor) is %s, its id %s in the id list" % (op[1], a, "is" if w == "T" else "is not"))
                 if [j.id for j in cursor] != ids:
                     fails.append("iterating the cursor twice gives different ids")
+                # the same questions to cursors that have not been iterated yet
+                try:
+                    fresh_len = len(project.find_jobs(flt))
+                    if fresh_len != n:
+                        fails.append("len() of a fresh cursor of %r is %d, iterating it yields %d jobs" % (flt, fresh_len, n))
+                    for i in order + [foreign.id]:
+                        job = foreign if i == foreign.id else project.open_job(id=i)
+                        if (job in project.find_jobs(flt)) != (i in ids):
+                            fails.append("(job %s in fresh cursor of %r) disagrees with iterating it" % (i, flt))
+                    if n:
+                        k = prng.randrange(-n, n)
+                        fresh = project.find_jobs(flt)
+                        first = fresh[k].id
+                        if [j.id for j in fresh][k] != first:
+                            fails.append("fresh cursor[%d] of %r is not the job iteration puts there" % (k, flt))
+                except Exception as e:  # noqa
+                    fails.append("fresh cursor of %r raises %s" % (flt, exc_name(e)))
                 if len(set(ids)) != len(ids):
                     fails.append("cursor yields an id twice: %s" % ids)
                 emit("cursor " + enc_val({"ids": ids, "ops": ops}), " ".join(answers), {"cursor": flt})
@@ -475,7 +472,7 @@ def run_case(case, ctx):
                     own = {i: _own_label(i, data[i][0], data[i][1], key, default) for i in acc}
                 own = {i: v for i, v in own.items() if v is not _NOVAL}
                 orderable = _orderable(list(own.values()))
-                if not callable_key and orderable and (fixed7 or not _nested_key(key)) and (fixed6b or not qc.not_doc_class(flt)):
+                if not callable_key and orderable:
                     emit("groupby " + qc.payload(listing, flt, {"keys": key, "default": default}), gline,
                          {"groupby": key, "default": default, "filter": flt})
                 if got is None:
@@ -498,8 +495,6 @@ def run_case(case, ctx):
                     for x, y in itertools.combinations(range(len(labs)), 2):
                         if labs[x] == labs[y]:
                             fails.append("groupby(%r): two groups carry the label %r" % (key, labs[x]))
-                if fails and not callable_key and _nested_key(key):
-                    cls = cls or "F-7"
                 cls = cls or (qc.known_class_of(listing, flt) if flt else None)
             if fails:
                 oracle += fails
@@ -523,13 +518,37 @@ def _pstr_line(text):
 
 
 def known_class(case, result):
-    """F-7: grouping by a nested / dotted key (after the namespace prefix);  F-6a / F-6b as in C06
-    for the filters involved.  A case is explained only if every failing item is in a class."""
+    """F-6a as in C06, for the filters involved.  A case is explained only if every failing item is
+    in that class."""
     cl = result.get("fail_classes") or []
     if not cl or any(c is None for c in cl):
         return None
     return cl[0]
 
 
-LEVEL_TEXT = "see harness/props/c07.py (filled in at the end of the build)"
-LEVEL_NOTE = ""
+LEVEL_TEXT = ("Proved in Lean: (spellings) find_jobs and the reference evaluator see a filter only through its flattened "
+              "normal form, so any two spellings with the same normal form select the same jobs and raise the same "
+              "exceptions on every corpus (spellings_same_result); the rewriting rules nested<->dotted, operator as "
+              "nested mapping<->key suffix, namespace as mapping preserve the normal form, also in the context of other "
+              "entries and below logical operators (nested_eq_dotted, op_suffix_eq_nested, namespace_as_mapping, "
+              "spelling_in_context); the sp. prefix is optional (sp_prefix_optional). (command line) signac find "
+              "evaluates the mapping the tokens parse to (cli_eq_mapping); key/value, lone key, '!', whole-JSON tokens "
+              "denote the documented mappings (cli_pair, cli_exists, cli_json) with int()/float()/json.loads as "
+              "parameters; an int token and a float token of one integer value are the same query (cli_int_eq_float). "
+              "(cursor) len, indexing from both ends incl. IndexError, full slice, zero step, slice membership and 'in' "
+              "describe the cursor's id list (cursor_consistent). (groupby) the groups' members are a permutation of the "
+              "ids the pre-filter selects - hence pairwise disjoint and exhaustive for distinct ids - and every member's "
+              "own value for the key is the group's label or == to it (groupby_partition, groupby_disjoint, "
+              "groupby_prefilter). Every front end is compared with the real parse_filter_arg / find_jobs(str|mapping) "
+              "/ _find_job_ids / JobsCursor / groupby on real projects.")
+LEVEL_NOTE = ("Trusted: Lean kernel; axioms propext/Classical.choice/Quot.sound; harness, tables of CPython results "
+              "(int, float, json.loads, re.search, math.isclose), brute-force oracles (spelling agreement on the real "
+              "code, Python list semantics for the cursor, partition by each job's own value for groupby). Not proved: "
+              "that two different groups never carry == labels (groupby_labels_distinct_full is kept as a Prop: it needs "
+              "transitivity of Python's ordering on the labels; checked by the oracle on every generated grouping); "
+              "general slices other than [:] are compared in the correspondence (every index, sampled slices with "
+              "negative/zero steps) and only their membership is proved; callable grouping keys are oracle-only; "
+              "argparse is not exercised. groupby resolves dotted keys through sub-mappings and strips only a real sp./doc. "
+              "prefix (F-7, fixed in /repo); the model has the same rule and nested-key groupings take part in the diff "
+              "like any other. Selection "
+              "exactness of the groups rests on C06's theorem for the pre-filter.")
